@@ -30,12 +30,14 @@ VEL = {"km/s": 1.0, "m/s": 1e-3}  # in km/s
 
 def gen_cases(ctx, n=None):
     rng = rng_for(ctx, 7)
-    n = n or (9 if ctx.tier == "quick" else 120)
+    n = n or (5 if ctx.tier == "quick" else 100)
     n_max = 5 if ctx.tier == "quick" else 8
     out = []
     for _ in range(n):
         spec = K.gen_spec(rng, n_max=n_max, tier=ctx.tier, full_frac=0.0)
         spec["lib_seed"] = int(rng.integers(0, 2**31))
+        if spec["theta"]["s"] == 0.0:  # a non-zero jitter, so that the unit of the `s` column matters on every path
+            spec["theta"]["s"] = 0.625 * (1.0 if spec["data_unit"] == "km/s" else 1000.0)
         out.append(spec)
     return out
 
@@ -80,6 +82,12 @@ def variants(spec):
     v = copy.deepcopy(spec)
     v["smp_units"] = {"P": "yr", "omega": "deg", "M0": "deg", "s": swap_vel(spec["data_unit"])}
     tw.append(("sample-columns", v, 1.0))
+    # (5) later surveys handed over in the other velocity unit than the first one (multi-survey data only)
+    if spec["n_off"] >= 1:
+        v = copy.deepcopy(spec)
+        for sv in v["surveys"][1:]:
+            sv["unit"] = swap_vel(spec["data_unit"])
+        tw.append(("survey-units", v, 1.0))
     return tw
 
 
@@ -120,10 +128,20 @@ def sample_twin(spec):
     margin = np.min(np.abs((lls - lls.max()) - np.log(uu)))
     # returned rows as physical quantities in fixed units
     du = u.km / u.s
-    phys = {nm: np.asarray(res[nm].to_value(du / u.day ** K.lin_power(nm)), float) for nm in lin_names(spec)}
-    phys.update(P=np.asarray(res["P"].to_value(u.day), float), e=np.asarray(res["e"].value, float), omega=np.asarray(res["omega"].to_value(u.rad), float),
-                M0=np.asarray(res["M0"].to_value(u.rad), float), s=np.asarray(res["s"].to_value(du), float))
-    return dict(acc=acc, lls=lls, mvn=rec.calls("mvn"), margin=float(margin), phys=phys, n=len(data) if not isinstance(data, list) else sum(len(d) for d in data))
+    def physical(r):
+        ph = {nm: np.asarray(r[nm].to_value(du / u.day ** K.lin_power(nm)), float) for nm in lin_names(spec)}
+        ph.update(P=np.asarray(r["P"].to_value(u.day), float), e=np.asarray(r["e"].value, float), omega=np.asarray(r["omega"].to_value(u.rad), float),
+                  M0=np.asarray(r["M0"].to_value(u.rad), float), s=np.asarray(r["s"].to_value(du), float))
+        return ph
+    phys = physical(res)
+    # the same through the on-disk path (cache file, 2 batches): marginal values, accepted rows and the returned nonlinear columns
+    with warnings.catch_warnings():
+        warnings.simplefilter("ignore")
+        jd = TheJoker(prior, rng=RecGen(707))
+        lls_disk = np.asarray(jd.marginal_ln_likelihood(data, lib, n_batches=2), float)
+        res_disk = jd.rejection_sample(data, lib, n_linear_samples=1, n_batches=2)
+    phys_disk = physical(res_disk)
+    return dict(acc=acc, lls=lls, mvn=rec.calls("mvn"), margin=float(margin), phys=phys, lls_disk=lls_disk, phys_disk=phys_disk, n=len(data) if not isinstance(data, list) else sum(len(d) for d in data))
 
 
 def compare_twins(spec, base, tw, kind, c):
@@ -150,10 +168,18 @@ def compare_twins(spec, base, tw, kind, c):
         if not np.all(np.abs(m1["cov"] - np.outer(f, f) * m0["cov"]) <= 1e-5 * np.outer(f * sd, f * sd)):
             errs.append(f"{kind}: conditional posterior covariance of accepted sample {k} is not physically the same (c={c})")
             break
-    # returned rows: nonlinear parameters physically equal
+    # returned rows: nonlinear parameters physically equal, in memory and through the cache file
     for nm in ("P", "e", "omega", "M0", "s"):
         if not np.allclose(base["phys"][nm], tw["phys"][nm], rtol=1e-12, atol=1e-12):
             errs.append(f"{kind}: returned {nm} differs physically: {base['phys'][nm][:3]} vs {tw['phys'][nm][:3]}")
+        if len(tw["phys_disk"][nm]) == len(base["phys"][nm]) and not np.allclose(base["phys"][nm], tw["phys_disk"][nm], rtol=1e-12, atol=1e-12):
+            errs.append(f"{kind}, on-disk path: returned {nm} differs physically from the in-memory base run: {base['phys'][nm][:3]} vs {tw['phys_disk'][nm][:3]}")
+    if len(tw["phys_disk"]["P"]) != len(base["phys"]["P"]):
+        errs.append(f"{kind}, on-disk path: {len(tw['phys_disk']['P'])} rows accepted, in-memory base run accepts {len(base['phys']['P'])}")
+    sh = (tw["lls_disk"] - base["lls"]) + n * math.log(c)
+    if not np.all(np.abs(sh) < 1e-8 * (1 + np.abs(base["lls"]))):
+        i = int(np.argmax(np.abs(sh)))
+        errs.append(f"{kind}, on-disk path: marginal ln-likelihood of library row {i} is {tw['lls_disk'][i]!r} against {base['lls'][i]!r} in memory (Jacobian constant {-n * math.log(c)!r})")
     return errs
 
 
@@ -176,6 +202,8 @@ def run_cases(ctx, specs):
             continue
         kterms.append(f"({K.kcase_term(spec, out0)}, {K.kobs_term(out0)})")
         kinfo.append((spec, "base"))
+        for e in compare_twins(spec, base, base, "base (in memory vs cache file)", 1.0)[:1]:
+            ctx.fail("predicate", SIG, e, case=dict(spec, twin="base"))
         n = len(out0["rv"])
         for kind, v, c in variants(spec):
             try:
@@ -195,7 +223,7 @@ def run_cases(ctx, specs):
                          f"[P prior in {v['P_unit']}, P0 {v['P0']}, K prior {v['kprior']}]", case=dict(spec, twin=kind))
             for e in compare_twins(spec, base, tw, kind, c)[:1]:
                 ctx.fail("predicate", SIG, e, case=dict(spec, twin=kind))
-            if np.isfinite(out1["a"]).all() and np.isfinite(out1["Ainv"]).all():
+            if kind in ("data-unit", "time-units", "survey-units") and np.isfinite(out1["a"]).all() and np.isfinite(out1["Ainv"]).all():
                 kterms.append(f"({K.kcase_term(v, out1)}, {K.kobs_term(out1)})")
                 kinfo.append((spec, kind))
             cq = frac(1000) if c == 1000.0 else (frac(1) / 1000 if c == 1e-3 else frac(1))
